@@ -277,3 +277,64 @@ def run(facts, rep, int_ty='i64', repo='/repo'):
 
 def _is_err(r):
     return r is not None and r[0] == 'adt' and r[2] == 'Err'
+
+
+def check_name_grammar(facts, rep, repo='/repo'):
+    """R8 (C20, "for every link name"): Link::load / Braid::load treat their argument as a table name iff
+    Link::is_valid_name accepts it (otherwise as a file path). The accepted language - the disjunction of the regular
+    expression literals handed to Regex::new inside is_valid_name, read from the MIR constants - must contain every name
+    that the shipped tables define (the file stems of resources/links and resources/braid), or `ykh kh <name>` answers
+    "invalid input link" for a link the library ships. Names are matched with Python's `re` (the literals use the common
+    subset of both syntaxes; anything else makes the rule INDETERMINATE)."""
+    import glob
+    b = facts.bodies.get('yui_link::link::link::Link::is_valid_name')
+    if b is None:
+        rep.indet('E10.R8: Link::is_valid_name not found')
+        return
+    rep.saw(b)
+    pats = []
+    disj = None
+    for p in SymEx(b, max_paths=200).run():
+        if p.end != 'return':
+            continue
+        got = [strip(e.args[0]) for e in p.calls() if e.name.endswith('Regex::new') and e.args]
+        lits = [g[1] for g in got if g[0] == 'const' and isinstance(g[1], str)]
+        if len(lits) != len(got):
+            rep.indet('E10.R8: a regular expression of is_valid_name is not a literal')
+            return
+        for l in lits:
+            l = l[1:-1] if l.startswith('"') and l.endswith('"') else l
+            if l not in pats:
+                pats.append(l)
+    if not pats:
+        rep.indet('E10.R8: no Regex::new literal in is_valid_name')
+        return
+    # the result must be the disjunction of the matches (is_match(a) || is_match(b) ...)
+    n_match = sum(1 for c in b.calls() if (c.callee or c.generic or '').endswith('is_match'))
+    if n_match != len(pats):
+        rep.indet('E10.R8: %d patterns but %d is_match calls' % (len(pats), n_match))
+        return
+    try:
+        if any(re.search(r'\\[pPdDwWsSbB]|\(\?', x) for x in pats):
+            raise re.error('syntax outside the common subset')
+        rx = [re.compile(x) for x in pats]
+    except re.error as e:
+        rep.indet('E10.R8: pattern outside the common regex subset: %s' % e)
+        return
+    total = 0
+    bad = []
+    for sub in ('links', 'braid'):
+        files = glob.glob(os.path.join(repo, 'yui-link', 'resources', sub, '*.json'))
+        for fp in files:
+            name = os.path.basename(fp)[:-5]
+            total += 1
+            if not any(r.match(name) for r in rx):
+                bad.append('%s/%s' % (sub, name))
+    rep.floor('E10.R8 shipped table names', total, 2500)
+    inst = 'Link::is_valid_name|accepts every name of the shipped link / braid tables'
+    if bad:
+        rep.violation('E10.R8-name-grammar', inst,
+                      'Link::is_valid_name (patterns %s) rejects %d of the %d shipped table names, e.g. %s: `ykh kh %s` reports "invalid input link" although resources/%s.json exists' %
+                      (pats, len(bad), total, ', '.join(sorted(bad)[:4]), sorted(bad)[0].split('/')[1], sorted(bad)[0]), where=b.where())
+    else:
+        rep.ok('E10.R8-name-grammar', inst, '%d names, patterns %s' % (total, pats))
